@@ -17,22 +17,29 @@ Definition mem (x : nat) (l : list nat) : bool := existsb (Nat.eqb x) l.
 Definition adj_of (edges : list (nat * nat)) (u v : nat) : bool :=
   existsb (fun e => ((fst e =? u) && (snd e =? v)) || ((fst e =? v) && (snd e =? u))) edges.
 
-(* the same graph with its self-loops ignored *)
-Definition noloop (adj : nat -> nat -> bool) (u v : nat) : bool := adj u v && negb (u =? v).
-
 Section Graph.
 Variable adj : nat -> nat -> bool.
 Variable nodes : list nat.
 
-(* number of edges of the induced subgraph on the duplicate-free list l (a self-loop is one edge) *)
+(* number of edges of the induced subgraph on the duplicate-free list l, self-loops not counted
+   (graph.number_of_edges() - nx.number_of_selfloops(graph), source since commit eefbefe) *)
 Fixpoint edge_count (l : list nat) : nat :=
   match l with
   | [] => 0
-  | u :: t => (if adj u u then 1 else 0) + length (filter (adj u) t) + edge_count t
+  | u :: t => length (filter (adj u) t) + edge_count t
   end.
 
-(* len(edges) == n*(n-1)/2 *)
+(* edges == n*(n-1)/2 *)
 Definition is_clique (l : list nat) : bool := edge_count l * 2 =? length l * (length l - 1).
+
+(* OLD variant (before eefbefe), kept by name for the refutation only: len(graph.edges) counts a self-loop as an edge *)
+Fixpoint edge_count_pre_eefbefe (l : list nat) : nat :=
+  match l with
+  | [] => 0
+  | u :: t => (if adj u u then 1 else 0) + length (filter (adj u) t) + edge_count_pre_eefbefe t
+  end.
+Definition is_clique_pre_eefbefe (l : list nat) : bool :=
+  edge_count_pre_eefbefe l * 2 =? length l * (length l - 1).
 
 (* networkx degree: neighbours other than itself, a self-loop counts twice *)
 Definition deg_in (u : nat) (l : list nat) : nat :=
@@ -133,9 +140,10 @@ Definition swap (s : sel) (clique : list nat) (draws : list nat) : res :=
     end.
 
 (* ---------- shrink ---------- *)
-(* [fixed = false] is the source as it stands: in weight mode the position found inside the
-   minimum-degree sub-array is used directly as a row of the full degree table.
-   [fixed = true] maps it back through the sub-array (the documented rule). *)
+(* [fixed = true] is the source (since commit 5c60841): the position found inside the minimum-degree
+   sub-array is mapped back through that sub-array to a row of the degree table.
+   [fixed = false] is the OLD variant (before 5c60841): that position was used directly as a table row.
+   The current-code entry points are [shrink_index_cur] / [shrink_cur] below. *)
 Definition shrink_index (fixed : bool) (s : sel) (tbl : list nat) (d : nat) : option nat :=
   let degs := map (fun u => deg_in u tbl) tbl in
   let dmin := positions (Nat.eqb (nmin degs)) degs in
@@ -173,5 +181,35 @@ Definition shrink (fixed : bool) (s : sel) (tbl : list nat) (draws : list nat) :
   if negb (subset tbl nodes) then ErrSubgraph
   else if negb (weights_ok s) then ErrWeights
   else shrink_loop (S (length tbl)) fixed s tbl draws.
+
+(* ---------- search (clique.search): grow, swap, repeat ---------- *)
+Fixpoint leqb (a b : list nat) : bool :=
+  match a, b with
+  | [], [] => true
+  | x :: a', y :: b' => (x =? y) && leqb a' b'
+  | _, _ => false
+  end.
+
+(* grow draws once per added node, swap once when C_1 is not empty; iterations < 1 is a ValueError *)
+Fixpoint csearch (iters : nat) (s : sel) (clique draws : list nat) : res :=
+  match iters with
+  | 0 => ErrSelect
+  | S i =>
+      match grow s clique draws with
+      | Ok g =>
+          let dr := skipn (length g - length (dedup clique)) draws in
+          match swap s g dr with
+          | Ok sw =>
+              if leqb g sw || (i =? 0) then Ok sw
+              else csearch i s sw (skipn (match c_1 g with [] => 0 | _ => 1 end) dr)
+          | e => e
+          end
+      | e => e
+      end
+  end.
+
+(* the source as it stands *)
+Definition shrink_index_cur := shrink_index true.
+Definition shrink_cur := shrink true.
 
 End Graph.
